@@ -394,3 +394,317 @@ def wire_batches(rng, tier, S, K):
             for raw in (forms if not quick else [f for f in forms if rng.chance(1, 3)]):
                 add(b, data, t, h, level='loose', raw=raw, kind='request-framing')
     return [(b['tree'], b['cases'], b['metas']) for b in batches]
+
+
+# ================================================================================================ second audit pass
+# Features a maintainer of a static web server may add on the range path, and the RELATION of inputs that exposes a careless
+# first version of each (see AUDIT2.md of the audit).  Today's server ignores all of these headers / neighbours / histories.
+#   meta['level']: 'std' (the statement in full), 'loose' (never-other-bytes clause only), 'anyof' (the target may name one of
+#   several files - meta['candidates'] -: what is sent must be labelled slices of ONE of them with ITS size)
+#   meta['second']: the request that follows the first in the same read (its own data / header / method / level)
+import gzip as _gzip
+
+HTTP_DATES = ['Thu, 01 Jan 1970 00:00:00 GMT', 'Sat, 01 Jan 2000 00:00:00 GMT', 'Fri, 01 Jan 2100 00:00:00 GMT', 'Fri, 31 Dec 9999 23:59:59 GMT',
+              'Sunday, 06-Nov-94 08:49:37 GMT', 'Sun Nov  6 08:49:37 1994', 'Thu, 01 Jan 1970 00:00:01 GMT']
+VALIDATORS = ['"abc"', 'W/"abc"', '"', '', '*', '"abc", "def"', 'yesterday', '0', '1', '1700000000', '1700000000000000000', '99999999999999999999',
+              '-1', '4102444800', '9223372036854775807000'] + HTTP_DATES
+
+def _req(method, target, headers, version='HTTP/1.1', body=b''):
+    t = target if isinstance(target, bytes) else target.encode()
+    out = method.encode() + b' ' + t + b' ' + version.encode() + b'\r\n'
+    for n, v in headers: out += n.encode() + b': ' + (v if isinstance(v, bytes) else v.encode()) + b'\r\n'
+    return out + b'\r\n' + body
+
+def _outside_headers(L):
+    return [f'bytes={L}-', f'bytes=0-{L}', f'bytes=-{L + 1}', f'bytes={max(L - 2, 0)}-{L + 5}', f'bytes=0-0,{L}-{L + 1}']
+
+class _Maker:
+    def __init__(self, rng, S, K):
+        self.rng, self.S, self.K, self.batches = rng, S, K, []
+    def batch(self):
+        b = dict(tree=self.S.Tree(b'lvl0/root'), cases=[], metas=[], files={}); self.batches.append(b); return b
+    def put(self, b, rel, data):
+        b['tree'].file(b['tree'].cwd + b'/' + (rel if isinstance(rel, bytes) else rel.encode()), data); b['files'][rel] = data
+    def link(self, b, rel, target):
+        b['tree'].link(b['tree'].cwd + b'/' + (rel if isinstance(rel, bytes) else rel.encode()), target)
+    def add(self, b, data, url, header, method='GET', level='std', kind='', entry=None, version='HTTP/1.1', headers=None, raw=None, ws='all', **extra):
+        e = entry or self.rng.choice(['proc', 'preq', 'proc', 'preq', 'aexec', 'aexecl'])
+        hs = headers if headers is not None else ([('Range', header)] if header is not None else [])
+        t = url if isinstance(url, bytes) else ('/' + url).encode()
+        if b'?' in t or b'#' in t: e = 'proc' if e in ('preq',) else e
+        b['cases'].append(self.K.mk(b['tree'], method, t, hs, entry=e, alloc=10000, kind='wire-range', version=version, raw=raw, ws=ws if e in ('proc', 'preq') else 'all'))
+        m = dict(data=data, header=header if header is not None else '', method=method, level=level, kind=kind); m.update(extra)
+        b['metas'].append(m)
+    def out(self):
+        return [(b['tree'], b['cases'], b['metas']) for b in self.batches]
+
+def feature_batches(rng, tier, S, K):
+    quick = tier == 'quick'
+    M = _Maker(rng, S, K)
+    pick = lambda xs, n: xs if (not quick or len(xs) <= n) else [xs[i] for i in sorted({rng.below(len(xs)) for _ in range(n)})]
+    text = ('naïve € 漢字 \U0001F600 ' * 25).encode()
+
+    # FA / FB. validators next to the Range header (If-Range, If-None-Match, If-Modified-Since, If-Match, If-Unmodified-Since): whether
+    #          they count is not this property's business - a 200 must be the WHOLE file, a 206 must carry labelled slices
+    b = M.batch()
+    vb = _blob(500, 13, 40); M.put(b, 'v.bin', vb); M.put(b, 'v.txt', text); M.put(b, 'vp.html', text[:333]); M.put(b, 'vd/index.html', vb[:210])
+    targets = [('v.bin', vb, None), ('v.txt', text, None), ('vp', text[:333], 'proc'), ('vd/', vb[:210], 'proc'), ('vd', vb[:210], 'proc')]
+    for url, data, entry in targets:
+        L = len(data)
+        ranges = ['bytes=0-0', f'bytes={L - 1}-', 'bytes=-7', f'bytes=0-{L - 1}', 'bytes=3-9,20-29', f'bytes=5-6,-3,{L - 2}-'] + _inside_headers(rng, L, 3) + _outside_headers(L)[:3]
+        for v in pick(VALIDATORS, 9 if url == 'v.bin' else 4):
+            for h in pick(ranges, 4):
+                order = rng.below(3)
+                hs = [('If-Range', v), ('Range', h)] if order == 0 else [('Range', h), ('If-Range', v)] if order == 1 else [('Host', 'localhost'), ('Range', h), ('if-range', v)]
+                M.add(b, data, url, h, headers=hs, level='loose', kind='if-range', entry=entry, method='HEAD' if rng.chance(1, 8) else 'GET')
+        conds = [[('If-None-Match', '*')], [('If-None-Match', '"abc"')], [('If-Match', '*')], [('If-Match', '"nope"')], [('If-Modified-Since', HTTP_DATES[1])],
+                 [('If-Modified-Since', HTTP_DATES[2])], [('If-Unmodified-Since', HTTP_DATES[0])], [('If-Unmodified-Since', HTTP_DATES[3])],
+                 [('If-None-Match', '"abc"'), ('If-Modified-Since', HTTP_DATES[2])], [('If-Match', '*'), ('If-Range', '"abc"')], [('If-None-Match', '*'), ('If-Range', HTTP_DATES[2])],
+                 [('Cache-Control', 'max-age=0'), ('If-Modified-Since', HTTP_DATES[5])], [('If-Range', HTTP_DATES[1]), ('If-Range', '"abc"')]]
+        for cs in pick(conds, 5):
+            for h in pick(ranges, 3):
+                hs = cs + [('Range', h)] if rng.chance(1, 2) else [('Range', h)] + cs
+                M.add(b, data, url, h, headers=hs, level='loose', kind='conditional', entry=entry, method='HEAD' if rng.chance(1, 8) else 'GET')
+        # a validator WITHOUT a Range header: whatever is sent as 200 is the whole file
+        for v in pick(VALIDATORS, 2): M.add(b, data, url, None, headers=[('If-Range', v)], level='loose', kind='if-range-alone', entry=entry)
+
+    # FC. precompressed neighbours (x.gz, x.br) and Accept-Encoding next to the Range header: the ranges are ranges of the FILE that was
+    #     asked for (an answer that declares a Content-Encoding is not judged: its ranges are those of the encoded representation)
+    b = M.batch()
+    sb = _blob(600, 3, 90)
+    gz = lambda d: _gzip.compress(d, 6, mtime=0)
+    side = [('s.bin', sb, {'gz': gz(sb), 'br': _blob(333, 5, 1)}),                 # the usual: the neighbour is shorter
+            ('t.txt', b'short text file, 40 bytes long..........', {'gz': _blob(64, 7, 2)}),   # the neighbour is LONGER than the file
+            ('e.bin', b'', {'gz': gz(b'')}),                                          # an empty file has a neighbour of 20 bytes
+            ('u.html', (b'<p>same size</p>' * 4), {'gz': _blob(64, 9, 3)}),            # same size, other bytes
+            ('sd/index.html', text[:200], {'gz': gz(text[:200])}),
+            ('sp.html', text[:150], {'gz': gz(text[:150]), 'br': b'br' * 9})]
+    for rel, data, sides in side:
+        if rel != 'u.html': M.put(b, rel, data)
+        for ext, sd in sides.items(): M.put(b, rel + '.' + ext, sd)
+        if rel == 'u.html': M.put(b, rel, data)                                        # this neighbour is OLDER than its file (written first)
+    M.put(b, 'o.bin.gz', gz(sb[:100]))                                                 # a neighbour without its file
+    M.link(b, 'ls.bin', b's.bin'); M.put(b, 'ls.bin.gz', _blob(50, 11, 4))             # a link next to a neighbour of its own
+    AE = ['gzip', 'gzip, deflate, br', 'br', '*', 'identity', 'gzip;q=0', 'GZIP', 'identity;q=0, gzip', '', 'br;q=1.0, gzip;q=0.5', 'deflate', 'gzip;q=1, *;q=0']
+    urls = [('s.bin', sb, None, [len(side[0][2]['gz']), 333]), ('t.txt', side[1][1], None, [64]), ('e.bin', b'', None, [20]), ('u.html', side[3][1], None, [64]), ('u', side[3][1], 'proc', [64]),
+            ('sd', text[:200], 'proc', [len(side[4][2]['gz'])]), ('sd/', text[:200], 'proc', [len(side[4][2]['gz'])]), ('sp', text[:150], 'proc', [len(side[5][2]['gz']), 18]),
+            ('ls.bin', sb, None, [50])]
+    for url, data, entry, others in urls:
+        L = len(data)
+        hs = (_inside_headers(rng, L, 3) if L else []) + ['bytes=0-', 'bytes=-1']
+        for o in others:                          # offsets that lie inside one of the two files and outside the other
+            lo, hi = min(L, o), max(L, o)
+            hs += [f'bytes={lo}-', f'bytes=0-{hi - 1}', f'bytes=-{hi}', f'bytes={max(lo - 1, 0)}-{lo}', f'bytes=0-{lo - 1}' if lo else 'bytes=0-0', f'bytes=-{lo}' if lo else 'bytes=-1']
+        for h in pick(hs, 7):
+            for ae in pick(AE, 3):
+                pair = [('Accept-Encoding', ae), ('Range', h)]
+                if rng.chance(1, 2): pair.reverse()
+                M.add(b, data, url, h, headers=pair, kind='sidecar', entry=entry, method='HEAD' if rng.chance(1, 10) else 'GET')
+            if rng.chance(1, 3): M.add(b, data, url, h, kind='sidecar-plain', entry=entry)
+    for rel, data, sides in side:                  # the neighbours are files of their own: their ranges are THEIR bytes
+        for ext, sd in sides.items():
+            for h in pick(_inside_headers(rng, len(sd), 2) + ['bytes=0-', f'bytes=-{len(sd)}'], 2):
+                M.add(b, sd, rel + '.' + ext, h, headers=[('Range', h)] + ([('Accept-Encoding', 'gzip')] if rng.chance(1, 2) else []), kind='sidecar-itself')
+    for h in ['bytes=0-9', 'bytes=-5']:
+        M.add(b, b'', 'o.bin', h, headers=[('Accept-Encoding', 'gzip'), ('Range', h)], level='loose', kind='sidecar-orphan')
+
+    # FD. persistent connections: a SECOND request in the same read (the second answer on the connection, if there is one, is judged with
+    #     the second request); FE. what the client takes per write call (the answer is judged as the bytes RECEIVED, not the first buffer)
+    b = M.batch()
+    k1, k2 = _blob(200, 17, 60), _blob(300, 19, 61); M.put(b, 'k.bin', k1); M.put(b, 'k2.bin', k2); M.put(b, 'k.txt', text[:180])
+    def pipe(first, second, conn=None, version='HTTP/1.1', ws='all', entry=None):
+        (u1, d1, h1, m1), (u2, d2, h2, m2) = first, second
+        c = [('Connection', conn)] if conn else []
+        raw = _req(m1, '/' + u1, ([('Range', h1)] if h1 else []) + c, version) + _req(m2, '/' + u2, ([('Range', h2)] if h2 else []) + c, version)
+        M.add(b, d1, u1, h1, method=m1, raw=raw, level='std' if h1 else 'loose', kind='pipelined', entry=entry or rng.choice(['proc', 'preq']), ws=ws,
+              second=dict(data=d2, header=h2 or '', method=m2, level='std' if h2 else 'loose', kind='pipelined-second'))
+    pairs = [(('k.bin', k1, 'bytes=0-4', 'GET'), ('k.bin', k1, 'bytes=10-14', 'GET')), (('k.bin', k1, 'bytes=0-4', 'GET'), ('k.bin', k1, 'bytes=5-9', 'GET')),
+             (('k.bin', k1, 'bytes=7-20', 'GET'), ('k2.bin', k2, 'bytes=7-20', 'GET')), (('k2.bin', k2, 'bytes=250-', 'GET'), ('k.bin', k1, 'bytes=150-', 'GET')),
+             (('k.bin', k1, 'bytes=3-3', 'HEAD'), ('k.bin', k1, 'bytes=4-8', 'GET')), (('k.bin', k1, 'bytes=4-8', 'GET'), ('k.bin', k1, 'bytes=3-3', 'HEAD')),
+             (('k.bin', k1, 'bytes=200-', 'GET'), ('k.bin', k1, 'bytes=190-', 'GET')), (('k.bin', k1, 'bytes=190-', 'GET'), ('k.bin', k1, 'bytes=200-', 'GET')),
+             (('k.bin', k1, None, 'GET'), ('k.bin', k1, 'bytes=1-2', 'GET')), (('k.bin', k1, 'bytes=1-2', 'GET'), ('k.bin', k1, None, 'GET')),
+             (('k.bin', k1, 'bytes=-5', 'GET'), ('k.bin', k1, 'bytes=0-1,5-6', 'GET')), (('k.txt', text[:180], 'bytes=0-16', 'GET'), ('k.txt', text[:180], 'bytes=17-40', 'GET')),
+             (('k.bin', k1, 'bytes=0-0', 'GET'), ('k.bin', k1, 'bytes=0-0', 'GET')), (('k.bin', k1, 'bytes=0-199', 'GET'), ('k2.bin', k2, 'bytes=0-299', 'GET'))]
+    for p in pairs:
+        for conn, ver in pick([('keep-alive', 'HTTP/1.1'), (None, 'HTTP/1.1'), ('keep-alive', 'HTTP/1.0'), ('close', 'HTTP/1.1'), ('Keep-Alive', 'HTTP/1.1')], 2):
+            pipe(p[0], p[1], conn, ver, ws=rng.choice(['all', 'all', 'c:7', 'c:1000']))
+    w8, wb = _blob(8193, 23, 7), _blob(70001 if quick else 200001, 29, 8); M.put(b, 'w8.bin', w8); M.put(b, 'wb.bin', wb)
+    for name, data in (('w8.bin', w8), ('wb.bin', wb)):
+        L = len(data)
+        for ws, n in [('c:4096', 4096), ('c:8192', 8192), ('c:65536', 65536), ('c:1024', 1024), ('s:1', 1), ('s:1.100', 100), ('s:1200.1', 1200), ('s:5.3.7', 7), ('c:10000', 10000)]:
+            if name == 'wb.bin' and n < 4096: continue          # (the harness keeps every buffer handed over: no tiny steps on large answers)
+            hs = [f'bytes=0-{min(L, n) - 1}', f'bytes=1-{min(L - 1, n)}', f'bytes={max(L - n - 1, 0)}-', f'bytes=0-{min(L - 1, 2 * n)}', f'bytes=5-9,0-{min(L, n) - 1},-3', 'bytes=0-']
+            for h in pick(hs, 3): M.add(b, data, name, h, kind='client-takes-' + ws.split(':')[0], entry=rng.choice(['proc', 'preq']), ws=ws)
+    for ws in ['c:1', 'c:2', 'c:7', 'c:100', 's:0.1' if False else 's:1.1.1']:
+        for h in ['bytes=0-0', 'bytes=3-9', 'bytes=0-1,4-5', 'bytes=-2']: M.add(b, k1, 'k.bin', h, kind='client-takes-' + ws.split(':')[0], entry=rng.choice(['proc', 'preq']), ws=ws)
+
+    # FF. something remembered from the request BEFORE (an answer cache, an open handle with its position, "same as last time"): requests
+    #     on one file, one after the other in one process, chosen by the relation of a request to its predecessor
+    b = M.batch()
+    h1, h2, ht = _blob(4000, 31, 9), _blob(4000, 37, 10), text; M.put(b, 'h.bin', h1); M.put(b, 'dup/h.bin', h2); M.put(b, 'h.txt', ht)
+    seq = [('h.bin', 'bytes=0-99', 'GET'), ('h.bin', 'bytes=100-199', 'GET'), ('h.bin', 'bytes=200-299', 'GET'), ('h.bin', 'bytes=200-299', 'GET'), ('h.bin', 'bytes=299-310', 'GET'),
+           ('h.bin', 'bytes=311-', 'GET'), ('h.bin', 'bytes=0-0', 'GET'), ('dup/h.bin', 'bytes=0-0', 'GET'), ('dup/h.bin', 'bytes=1-1', 'GET'), ('h.bin', 'bytes=2-2', 'GET'),
+           ('h.bin', 'bytes=4000-', 'GET'), ('h.bin', 'bytes=3999-', 'GET'), ('h.bin', 'bytes=-1', 'GET'), ('h.bin', 'bytes=7-8', 'HEAD'), ('h.bin', 'bytes=7-8', 'GET'),
+           ('h.bin', 'bytes=9-12', 'OPTIONS'), ('h.bin', 'bytes=9-12', 'GET'), ('h.bin', 'bytes=0-9,20-29', 'GET'), ('h.bin', 'bytes=30-39', 'GET'), ('h.bin', 'bytes=0-9', 'GET'),
+           ('h.bin', None, 'GET'), ('h.bin', 'bytes=5-6', 'GET'), ('h.bin', None, 'GET'), ('h.bin', 'bytes=0-', 'GET'), ('h.bin', None, 'HEAD'), ('h.bin', 'bytes=1-', 'GET'),
+           ('h.txt', 'bytes=1-', 'GET'), ('h.bin', 'bytes=1-', 'GET'), ('h.bin', 'bytes=x', 'GET'), ('h.bin', 'bytes=0-1', 'GET'), ('h.bin', 'bytes=0-1', 'GET'), ('h.bin', 'bytes=0-1', 'GET'),
+           ('dup/h.bin', 'bytes=0-1', 'GET'), ('h.bin', 'bytes=3990-4010', 'GET'), ('h.bin', 'bytes=3990-3999', 'GET'), ('h.bin', 'bytes=-4000', 'GET'), ('h.bin', 'bytes=-4001', 'GET'), ('h.bin', 'bytes=-3999', 'GET')]
+    D = {'h.bin': h1, 'dup/h.bin': h2, 'h.txt': ht}
+    for entry in (['proc', 'aexec'] if quick else ['proc', 'preq', 'aexec', 'aexecl']):
+        for (u, h, m) in seq: M.add(b, D[u], u, h, method=m, level='std' if h else 'loose', kind='history', entry=entry)
+        for _ in range(20 if quick else 200):            # a walk: the next request continues, repeats or overlaps the one before
+            a = rng.below(3900); n = rng.choice([1, 2, 50, 100]); u = 'h.bin'
+            for _ in range(rng.range(2, 5)):
+                M.add(b, D[u], u, f'bytes={a}-{min(3999, a + n - 1)}', kind='history', entry=entry)
+                r = rng.below(6)
+                if r == 0: pass
+                elif r == 1: a = min(3999, a + n - 1)
+                elif r == 2: u = 'dup/h.bin' if u == 'h.bin' else 'h.bin'
+                else: a = min(3999, a + n)
+
+    # FG. limits against abuse (a cap on the bytes of one answer, on overlapping ranges, RFC 7233 section 6.1): the ranges of one header add
+    #     up to more than the file, cover it several times, overlap in threes
+    b = M.batch()
+    g3, g8 = _blob(300, 41, 11), _blob(8193, 43, 12); M.put(b, 'g.bin', g3); M.put(b, 'g8.bin', g8)
+    for name, data in (('g.bin', g3), ('g8.bin', g8)):
+        for h in pick(amplification_headers(len(data), rng, tier, wire=True), 14): M.add(b, data, name, h, kind='amplification')
+
+    # FI. the header read "as the RFC says": several Range lines (joined with a comma?), a folded line, the unit in other case, blanks after
+    #     the equals sign, a parameter: never-other-bytes clause only
+    b = M.batch()
+    jd = _blob(400, 47, 13); M.put(b, 'j.bin', jd); M.put(b, 'j.txt', text)
+    for name, data in (('j.bin', jd), ('j.txt', text)):
+        L = len(data); t = ('/' + name).encode()
+        G = lambda lines: b'GET ' + t + b' HTTP/1.1\r\n' + b''.join(l + b'\r\n' for l in lines) + b'\r\n'
+        forms = [([b'Range: bytes=0-1', b'Range: bytes=4-5'], 'bytes=0-1'), ([b'Range: bytes=0-1', b'Range: 4-5'], 'bytes=0-1'), ([b'Range: bytes=0-1', b'Range: bytes=%d-' % L], 'bytes=0-1'),
+                 ([b'Range: bytes=%d-' % L, b'Range: bytes=0-1'], f'bytes={L}-'), ([b'Range: bytes=x', b'Range: bytes=0-1'], 'bytes=x'), ([b'Range: bytes=0-1', b'range: bytes=2-3', b'RANGE: bytes=4-5'], 'bytes=0-1'),
+                 ([b'Range: bytes=0-1,', b' 4-5'], 'bytes=0-1,'), ([b'Range: bytes=0-1', b'\t,4-5'], 'bytes=0-1'), ([b'Range: bytes=0-1, bytes=4-5'], 'bytes=0-1, bytes=4-5'), ([b'Range: BYTES=0-1'], 'BYTES=0-1'),
+                 ([b'Range: bytes= 0-1'], 'bytes= 0-1'), ([b'Range: bytes=0-1;q=1'], 'bytes=0-1;q=1'), ([b'Range: bytes=0-1, 4-5,'], 'bytes=0-1, 4-5,'), ([b'Range: "bytes=0-1"'], '"bytes=0-1"'),
+                 ([b'Range: bytes=0-1', b'Range: bytes=0-1', b'Range: bytes=0-1'], 'bytes=0-1'), ([b'Range:bytes=2-3', b'Range: bytes=4-5'], 'bytes=2-3'), ([b'Range: bytes=%d-%d' % (L - 2, L - 1), b'Range: bytes=-1'], f'bytes={L - 2}-{L - 1}'),
+                 ([b'Range: bytes=0-1\x00'], 'bytes=0-1\x00'), ([b'Range: bytes=0-1\r', b'X: y'], 'bytes=0-1'), ([b'Range: bytes=0-1', b'Request-Range: bytes=4-5'], 'bytes=0-1'),
+                 ([b'Request-Range: bytes=4-5'], ''), ([b'Range: bytes=0-1', b'Range:'], 'bytes=0-1'), ([b'Range:', b'Range: bytes=0-1'], '')]
+        for lines, h in pick(forms, 12):
+            M.add(b, data, t, h, level='loose', raw=G(lines), kind='header-joined', entry=rng.choice(['proc', 'preq', 'aexec']))
+
+    # FJ. a file and its NAMESAKES (clean URLs, an index page preferred over the .html rule or the other way round): /n may name n/index.html
+    #     or n.html, /m.bin has an m.bin.html next to it ... whichever file is answered, size and bytes must be of ONE file; links in chains,
+    #     links whose text is shorter / longer than the file they name
+    b = M.batch()
+    def nb(n, k): return _blob(n, 51 + 2 * k, 100 + k)
+    fam = {'n/index.html': nb(50, 1), 'n.html': nb(90, 2), 'm.bin': nb(70, 3), 'm.bin.html': nb(30, 4), 'r.html': nb(40, 5), 'r.html.html': nb(80, 6), 'q': nb(25, 7), 'q.html': nb(65, 8),
+           'z.html': nb(55, 9), 'i2/index.html': nb(45, 10), 'i2/index.html.html': nb(85, 11), 'i2.html': nb(35, 12), 'o/index.html': nb(60, 13), 'o/index': nb(20, 14)}
+    for rel, d in fam.items(): M.put(b, rel, d)
+    b['tree'].dir(b['tree'].cwd + b'/z')
+    asks = [('n', ['n/index.html', 'n.html'], None), ('n/', ['n/index.html', 'n.html'], None), ('n.html', None, 'n.html'), ('n/index.html', None, 'n/index.html'), ('n/index', ['n/index.html', 'n.html'], None),
+            ('m.bin', None, 'm.bin'), ('m.bin.html', None, 'm.bin.html'), ('r', ['r.html', 'r.html.html'], None), ('r.html', None, 'r.html'), ('r.html.html', None, 'r.html.html'),
+            ('q', None, 'q'), ('q.html', None, 'q.html'), ('z', ['z.html'], None), ('z/', ['z.html'], None), ('i2', ['i2/index.html', 'i2/index.html.html', 'i2.html'], None),
+            ('i2/', ['i2/index.html', 'i2/index.html.html', 'i2.html'], None), ('i2/index.html', None, 'i2/index.html'), ('o/index', None, 'o/index'), ('o/', ['o/index.html', 'o/index'], None), ('o', ['o/index.html', 'o/index'], None)]
+    for url, cands, exact in asks:
+        ds = [fam[exact]] if exact else [fam[c] for c in cands]
+        lens = sorted({len(fam[x]) for x in fam})
+        hs = ['bytes=0-', 'bytes=-1', 'bytes=3-9', 'bytes=0-0,10-19']
+        for d in ds: hs += [f'bytes={len(d) - 1}-', f'bytes=0-{len(d) - 1}', f'bytes=-{len(d)}', f'bytes={len(d)}-', f'bytes=0-{len(d)}']
+        hs += [f'bytes={rng.choice(lens)}-', f'bytes=-{rng.choice(lens)}']
+        for h in pick(hs, 6):
+            if exact: M.add(b, fam[exact], url, h, kind='namesake-exact', entry=None if '.' in url.split('/')[-1] else 'proc')
+            else: M.add(b, ds[0], url, h, level='anyof', candidates=ds, kind='namesake', entry='proc' if rng.chance(2, 3) else 'aexec')
+    chain = nb(120, 20); short = nb(7, 21); M.put(b, 'store/deep/chain-target.bin', chain); M.put(b, 'store/s', short)
+    M.link(b, 'c1.lnk', b'c2.lnk'); M.link(b, 'c2.lnk', b'store/c3.lnk'); M.link(b, 'store/c3.lnk', b'deep/chain-target.bin')
+    M.link(b, 'long-name-of-a-link-to-a-short-file.bin', b'store/s'); M.link(b, 'l', b'store/deep/chain-target.bin'); M.link(b, 'dl', b'store/deep')
+    for url, d in (('c1.lnk', chain), ('c2.lnk', chain), ('store/c3.lnk', chain), ('long-name-of-a-link-to-a-short-file.bin', short), ('l', chain), ('dl/chain-target.bin', chain)):
+        L = len(d); txt = {'c1.lnk': 6, 'c2.lnk': 12, 'store/c3.lnk': 21, 'l': 27}.get(url, 7)
+        for h in pick(_inside_headers(rng, L, 2) + [f'bytes={txt}-', f'bytes=0-{txt - 1}', f'bytes=-{txt}', f'bytes={txt - 1}-{txt}', f'bytes={L - 1}-', f'bytes=-{L}'] + _outside_headers(L)[:2], 5):
+            M.add(b, d, url, h, kind='link-chain', entry=rng.choice(['proc', 'aexec']))
+    # FK. the request and the BUFFER it is read into (a server that starts to read in a loop, or to enforce a header limit): the buffer ends
+    #     inside the Range line - what arrives is another header, perhaps a well-formed one: never-other-bytes clause only
+    b = M.batch()
+    bc = _blob(500, 53, 23); M.put(b, 'bc.bin', bc)
+    for h in ['bytes=100-250,300-399', 'bytes=123-', 'bytes=-123', 'bytes=10-19']:
+        raw = _req('GET', '/bc.bin', [('Host', 'localhost'), ('Range', h), ('Accept', '*/*')])
+        start = raw.index(b'Range:')
+        cuts = list(range(start + 7, start + 8 + len(h) + 4)) + [len(raw) - 2, len(raw) - 1, len(raw), len(raw) + 1]
+        for n in pick(cuts, 9):
+            b['cases'].append(K.mk(b['tree'], 'GET', '/bc.bin', raw=raw, entry='proc', alloc=n, kind='wire-range'))
+            b['metas'].append(dict(data=bc, header=h, method='GET', level='loose', kind='buffer-cut'))
+    # FL. a range asked for in the QUERY (for clients that cannot set headers) next to the Range header: the header is what the statement
+    #     speaks about; without the header whatever is sent is the whole file or labelled slices of it
+    ql = _blob(260, 57, 24); M.put(b, 'ql.bin', ql); M.put(b, 'ql.html', text[:260])
+    for q in pick(['bytes=0-1', 'range=0-1', 'Range=bytes%3D0-1', 'start=5&end=9', 'offset=3&length=4', 'range=bytes=250-', 'bytes=-5', 'r=300-', 'range=', 'start=259', 'download=1&range=0-0', 'bytes=0-1&bytes=4-5'], 7):
+        for url, data in (('ql.bin', ql), ('ql', text[:260])):
+            for h in pick(['bytes=7-20', 'bytes=100-', 'bytes=-9', 'bytes=0-0,259-259', 'bytes=0-259'], 2):
+                M.add(b, data, f'{url}?{q}', h, kind='query-range', entry=rng.choice(['proc', 'aexec']))
+            if rng.chance(1, 2): M.add(b, data, f'{url}?{q}', None, level='loose', kind='query-range-alone', entry=rng.choice(['proc', 'aexec']))
+    return M.out()
+
+def amplification_headers(L, rng, tier, wire=False):
+    """headers whose ranges, all inside a file of L bytes, add up to more than the file"""
+    ks = [2, 3, 4, 17, 64] if tier == 'quick' else [2, 3, 4, 5, 16, 17, 33, 64, 65, 128]
+    cap = (600000 if wire else 12000000)
+    out = []
+    for k in ks:
+        if k * L > cap: continue
+        out += ['bytes=' + ','.join(['0-'] * k), 'bytes=' + ', '.join([f'0-{L - 1}'] * k), 'bytes=' + ','.join([f'-{L}'] * k),
+                'bytes=' + ','.join(f'{i}-' for i in range(min(k, L))), 'bytes=' + ','.join(f'0-{L - 1 - i}' for i in range(min(k, L))),
+                'bytes=' + ','.join(f'{i % 2}-{L - 1 - (i % 3)}' for i in range(k))]
+    half = L // 2
+    out += [f'bytes=0-{L - 1},0-0', f'bytes=0-0,0-{L - 1}', f'bytes=0-{half - 1},{half}-{L - 1}', f'bytes=0-{half},{half}-{L - 1}', f'bytes=0-{half - 1},{half}-{L - 1},0-0',
+            f'bytes=0-{L - 1},{half}-{L - 1}', f'bytes=0-{L - 2},1-{L - 1}', f'bytes=0-{half},1-{half + 1},2-{half + 2}', f'bytes=0-{half},0-{half},0-{half}',
+            f'bytes=0-{L - 1},0-{L - 1}', f'bytes=1-{L - 1},0-{L - 2},0-{L - 1}', f'bytes=-{L},-{L - 1},-{L - 2}' if L > 2 else 'bytes=-1,-1,-1']
+    return out
+
+def codec_cases2(rng, tier):
+    """second pass, `rangeget` lines: answers larger than the file, and the same path with CHANGING content between consecutive lines
+    (the harness rewrites f.bin in place when the content of a line differs from the line before)"""
+    out = []
+    for L in ([10, 300, 8193, 70001] if tier == 'quick' else [1, 2, 10, 300, 8192, 8193, 65537, 70001, 200000]):
+        for h in amplification_headers(L, rng, tier): out.append((L, h, 1, 'GET', 'amplification'))
+    A = bytes((i * 89 + 5) % 256 for i in range(300)); B = bytes((i * 97 + 6) % 256 for i in range(300))
+    states = [A, B, A, A + b'!', A[:299], B[:299] + b'?', A * 28, B * 28, A[:10], B[:10], b'', A, B[:1], A[:1], A + A, A]
+    heads = ['bytes=0-9', 'bytes=10-19', 'bytes=5-', 'bytes=-5', 'bytes=0-0,299-299', 'bytes=295-305', 'bytes=300-', 'bytes=0-299', 'bytes=9-9', 'bytes=-300', 'bytes=-301', 'bytes=0-']
+    for rounds in range(2 if tier == 'quick' else 6):
+        for d in states:
+            for h in (heads if rounds == 0 else [x for x in heads if rng.chance(1, 2)]):
+                out.append((d, h, 1, 'HEAD' if rng.chance(1, 15) else 'GET', 'file-changes'))
+            out.append((d, '', 0, 'GET', 'file-changes'))
+    return out
+
+# ------------------------------------------------------------------------------------------------ files that change between two answers
+def churn_script(rng, tier, S, K, entry):
+    """[('tree', Tree) | ('case', Case, meta)]: the served directory is rebuilt between groups of requests - the same path holds other
+    bytes of the same length, grows, shrinks, becomes empty, becomes a link, the link is re-pointed, a directory with an index page
+    appears next to the .html page ... - and the same ranges are asked again through the same entry point"""
+    quick = tier == 'quick'
+    A, B = _blob(300, 61, 14), _blob(300, 67, 15); W, X = _blob(300, 71, 16), _blob(300, 73, 17)
+    P, Q, I1, I2, I3 = _blob(120, 79, 18), _blob(150, 83, 19), _blob(100, 89, 20), _blob(100, 97, 21), _blob(40, 101, 22)
+    states = [dict(v=A, pg=P, idx=I1), dict(v=B, pg=P, idx=I2), dict(v=A + b'!', pgdir=Q, pg=P, idx=I3), dict(v=A * 28, pgdir=Q, idx=I1), dict(v=A[:10], pg=P, idx=I1),
+              dict(v=b'', pg=Q[:120], idx=I2), dict(vlink=b'w.bin', pg=P, idx=I2), dict(vlink=b'x.bin', pg=P, idx=I2), dict(v=A, pg=P, idx=I1), dict(pg=P, idx=I1), dict(v=B, pg=P, idx=I1)]
+    heads = ['bytes=0-9', 'bytes=10-19', 'bytes=5-', 'bytes=-5', 'bytes=0-0,299-299', 'bytes=295-305', 'bytes=300-', 'bytes=0-299', 'bytes=9-9', None]
+    steps, root = [], None
+    for st in states:
+        t = S.Tree(b'lvl0/root')
+        if root is None: root = t.root
+        t.root = root                                     # the same directory, rebuilt
+        r = t.cwd + b'/'
+        t.file(r + b'w.bin', W).file(r + b'x.bin', X).file(r + b'keep.txt', b'keep')
+        if 'v' in st: t.file(r + b'v.bin', st['v'])
+        if 'vlink' in st: t.link(r + b'v.bin', st['vlink'])
+        if 'pg' in st: t.file(r + b'pg.html', st['pg'])
+        if 'pgdir' in st: t.file(r + b'pg/index.html', st['pgdir'])
+        t.file(r + b'd/index.html', st['idx'])
+        steps.append(('tree', t))
+        vdata = st.get('v', W if st.get('vlink') == b'w.bin' else X if st.get('vlink') == b'x.bin' else None)
+        def add(url, data, h, level, cands=None):
+            hs = [('Range', h)] if h is not None else []
+            c = K.mk(t, 'GET', url, hs, entry=entry, alloc=10000, kind='wire-range')
+            m = dict(data=data if data is not None else b'', header=h or '', method='GET', level=level, kind='churn')
+            if cands: m['candidates'] = cands
+            steps.append(('case', c, m))
+        for h in heads:
+            add('/v.bin', vdata, h, 'loose' if (h is None or vdata is None) else 'std')
+        if entry in ('proc', 'aexec'):
+            pgc = [st[k] for k in ('pgdir', 'pg') if k in st]
+            for h in ['bytes=0-9', 'bytes=100-', 'bytes=-130', None]:
+                add('/pg', pgc[0], h, 'loose' if h is None else ('anyof' if len(pgc) > 1 else 'std'), pgc if len(pgc) > 1 else None)
+            for u in ('/d/', '/d'):
+                for h in ['bytes=0-9', 'bytes=50-', 'bytes=-60']: add(u, st['idx'], h, 'std')
+    return steps
